@@ -197,49 +197,56 @@ def magnitudes(ctx: Ctx):
 
     for off in (0.0, 1e3, 1e6, 1e8, 1e10, -1e9):
         for mult in (1.0, 1e4):
-            x = off + mult * numpy.array([0.0, 1, 2, 3, 4, 5, 6, 7, 8, 9, 13, 21])
-            tol = 1e-9 + 8 * float(numpy.spacing(numpy.abs(x).max())) / float(numpy.std(x))      # rounding of the mean itself
+            try:
+                _magnitude_case(ctx, off, mult, pandas, model_matrix, poly, scale)
+            except Exception as e:  # noqa  (an exception of the library is a verdict, not a failure of the machinery)
+                ctx.violation({"transform": "scale / poly", "offset": off, "multiplier": mult}, {"why": "exception", "observed": type(e).__name__ + ": " + str(e)[:200]}, kind="predicate")
+
+
+def _magnitude_case(ctx, off, mult, pandas, model_matrix, poly, scale):
+    x = off + mult * numpy.array([0.0, 1, 2, 3, 4, 5, 6, 7, 8, 9, 13, 21])
+    tol = 1e-9 + 8 * float(numpy.spacing(numpy.abs(x).max())) / float(numpy.std(x))      # rounding of the mean itself
+    for ddof in (0, 1):
+        ctx.traces += 1
+        ctx.evaluations += 1
+        st = {}
+        got = scale(x, ddof=ddof, _state=st)
+        sd = float(numpy.std(got, ddof=ddof))
+        if not (abs(float(numpy.mean(got))) < tol and abs(sd - 1) < tol):
+            ctx.violation({"transform": "scale", "offset": off, "multiplier": mult, "ddof": ddof},
+                          {"why": "not zero mean / unit standard deviation on data of large magnitude", "mean": float(numpy.mean(got)), "std": sd}, kind="predicate")
+        m2 = numpy.asarray(model_matrix("0 + scale(x)", pandas.DataFrame({"x": x}), context={}))[:, 0]
+        if abs(float(numpy.std(m2, ddof=1)) - 1) > tol and ddof == 1:
+            ctx.violation({"transform": "scale via model_matrix", "offset": off, "multiplier": mult}, {"why": "not unit standard deviation", "std": float(numpy.std(m2, ddof=1))}, kind="predicate")
+    if off == 0.0 and mult == 1.0:
+        # homogeneity (a theorem of MC_PolyScale): a power-of-two multiple is exact in floating point, so the standardised
+        # vector and the orthonormal polynomial columns must come out the same at every magnitude, on fit and on re-use
+        for e in (-70, -40, -30, -10, 20, 60):
+            c = 2.0 ** e
             for ddof in (0, 1):
                 ctx.traces += 1
                 ctx.evaluations += 1
-                st = {}
-                got = scale(x, ddof=ddof, _state=st)
-                sd = float(numpy.std(got, ddof=ddof))
-                if not (abs(float(numpy.mean(got))) < tol and abs(sd - 1) < tol):
-                    ctx.violation({"transform": "scale", "offset": off, "multiplier": mult, "ddof": ddof},
-                                  {"why": "not zero mean / unit standard deviation on data of large magnitude", "mean": float(numpy.mean(got)), "std": sd}, kind="predicate")
-                m2 = numpy.asarray(model_matrix("0 + scale(x)", pandas.DataFrame({"x": x}), context={}))[:, 0]
-                if abs(float(numpy.std(m2, ddof=1)) - 1) > tol and ddof == 1:
-                    ctx.violation({"transform": "scale via model_matrix", "offset": off, "multiplier": mult}, {"why": "not unit standard deviation", "std": float(numpy.std(m2, ddof=1))}, kind="predicate")
-            if off == 0.0 and mult == 1.0:
-                # homogeneity (a theorem of MC_PolyScale): a power-of-two multiple is exact in floating point, so the standardised
-                # vector and the orthonormal polynomial columns must come out the same at every magnitude, on fit and on re-use
-                for e in (-70, -40, -30, -10, 20, 60):
-                    c = 2.0 ** e
-                    for ddof in (0, 1):
-                        ctx.traces += 1
-                        ctx.evaluations += 1
-                        st0, st1 = {}, {}
-                        ref, got = numpy.asarray(scale(x, ddof=ddof, _state=st0)), numpy.asarray(scale(c * x, ddof=ddof, _state=st1))
-                        ref2, got2 = numpy.asarray(scale(x[:5] + 1, _state=st0)), numpy.asarray(scale(c * (x[:5] + 1), _state=st1))
-                        if not (numpy.allclose(got, ref, rtol=1e-12, atol=1e-12) and numpy.allclose(got2, ref2, rtol=1e-12, atol=1e-12)):
-                            ctx.violation({"transform": "scale", "offset": 0.0, "multiplier": f"2**{e}", "ddof": ddof},
-                                          {"why": "standardising a power-of-two multiple differs from standardising the vector", "observed": got.tolist(), "expected": ref.tolist()},
-                                          kind="predicate")
-                    m1 = numpy.asarray(model_matrix("0 + scale(x) + center(x):scale(x, center=False)", pandas.DataFrame({"x": x}), context={}))
-                    mc = numpy.asarray(model_matrix("0 + scale(x) + center(x):scale(x, center=False)", pandas.DataFrame({"x": c * x}), context={}))
-                    if not numpy.allclose(mc[:, 0], m1[:, 0], rtol=1e-12, atol=1e-12) or not numpy.allclose(mc[:, 1], c * m1[:, 1], rtol=1e-12, atol=0):
-                        ctx.violation({"transform": "scale via model_matrix", "offset": 0.0, "multiplier": f"2**{e}"}, {"why": "homogeneity", "observed": mc.tolist()}, kind="predicate")
-                    Pc, P1 = numpy.asarray(poly(c * x, degree=3, _state={}), dtype=float), numpy.asarray(poly(x, degree=3, _state={}), dtype=float)
-                    if not numpy.allclose(Pc, P1, rtol=1e-9, atol=1e-12):
-                        ctx.violation({"transform": "poly", "offset": 0.0, "multiplier": f"2**{e}"}, {"why": "orthonormal polynomial of a power-of-two multiple differs", "observed": Pc.tolist()},
-                                      kind="predicate")
-            if abs(off) <= 1e6:
-                P = numpy.asarray(poly(x, degree=3, _state={}), dtype=float)
-                ctx.traces += 1
-                ctx.evaluations += 1
-                if not (numpy.allclose(P.T @ P, numpy.eye(3), atol=1e-7) and numpy.allclose(P.sum(axis=0), 0, atol=1e-7)):
-                    ctx.violation({"transform": "poly", "offset": off, "multiplier": mult}, {"why": "columns not orthonormal / not orthogonal to the constant", "gram": (P.T @ P).tolist()}, kind="predicate")
+                st0, st1 = {}, {}
+                ref, got = numpy.asarray(scale(x, ddof=ddof, _state=st0)), numpy.asarray(scale(c * x, ddof=ddof, _state=st1))
+                ref2, got2 = numpy.asarray(scale(x[:5] + 1, _state=st0)), numpy.asarray(scale(c * (x[:5] + 1), _state=st1))
+                if not (numpy.allclose(got, ref, rtol=1e-12, atol=1e-12) and numpy.allclose(got2, ref2, rtol=1e-12, atol=1e-12)):
+                    ctx.violation({"transform": "scale", "offset": 0.0, "multiplier": f"2**{e}", "ddof": ddof},
+                                  {"why": "standardising a power-of-two multiple differs from standardising the vector", "observed": got.tolist(), "expected": ref.tolist()},
+                                  kind="predicate")
+            m1 = numpy.asarray(model_matrix("0 + scale(x) + center(x):scale(x, center=False)", pandas.DataFrame({"x": x}), context={}))
+            mc = numpy.asarray(model_matrix("0 + scale(x) + center(x):scale(x, center=False)", pandas.DataFrame({"x": c * x}), context={}))
+            if not numpy.allclose(mc[:, 0], m1[:, 0], rtol=1e-12, atol=1e-12) or not numpy.allclose(mc[:, 1], c * m1[:, 1], rtol=1e-12, atol=0):
+                ctx.violation({"transform": "scale via model_matrix", "offset": 0.0, "multiplier": f"2**{e}"}, {"why": "homogeneity", "observed": mc.tolist()}, kind="predicate")
+            Pc, P1 = numpy.asarray(poly(c * x, degree=3, _state={}), dtype=float), numpy.asarray(poly(x, degree=3, _state={}), dtype=float)
+            if not numpy.allclose(Pc, P1, rtol=1e-9, atol=1e-12):
+                ctx.violation({"transform": "poly", "offset": 0.0, "multiplier": f"2**{e}"}, {"why": "orthonormal polynomial of a power-of-two multiple differs", "observed": Pc.tolist()},
+                              kind="predicate")
+    if abs(off) <= 1e6:
+        P = numpy.asarray(poly(x, degree=3, _state={}), dtype=float)
+        ctx.traces += 1
+        ctx.evaluations += 1
+        if not (numpy.allclose(P.T @ P, numpy.eye(3), atol=1e-7) and numpy.allclose(P.sum(axis=0), 0, atol=1e-7)):
+            ctx.violation({"transform": "poly", "offset": off, "multiplier": mult}, {"why": "columns not orthonormal / not orthogonal to the constant", "gram": (P.T @ P).tolist()}, kind="predicate")
 
 
 def run(ctx: Ctx) -> None:
